@@ -220,6 +220,20 @@ def gen_deck(rng):
             cell['imp'] = {'n': 0}
     if all(c['imp']['n'] == 0 for c in cells):
         cells[0]['imp'] = {'n': 1}
+    # a union member that becomes patently empty after de-duplication:
+    # (a -a') : x  with a' a copy of a  (remove_empty_volumes then re-inserts
+    # the helper planes)
+    if rng.random() < 0.3:
+        simple = [c for c in cells if c['expr'][0] == 's']
+        if simple:
+            victim = rng.choice(simple)
+            src = rng.choice(surfaces)
+            dup = dict(src)
+            dup['id'] = max(s['id'] for s in surfaces) + 1
+            surfaces.append(dup)
+            sign = rng.choice([1, -1])
+            victim['expr'] = (':', ('*', S(sign * src['id']),
+                                    S(-sign * dup['id'])), victim['expr'])
     # universes: one or two level-0 cells filled with the same universe
     if rng.random() < 0.45:
         n2 = rng.randint(2, 5)
@@ -283,26 +297,70 @@ def helper_merge_failure(conv, cap):
     return bool(merged) and conv.msg.strip() in {str(u) for u in merged}
 
 
-def run_witnesses(res):
-    for name, text, cls in (('empty_ref', WITNESS_EMPTY_REF,
-                             'empty_cellref_operand'),
-                            ('helper_merge', WITNESS_HELPER_MERGE,
-                             'helper_plane_dedup_merge')):
-        conv, cap = convert_captured(text)
-        res.count('witness:' + name)
-        if cls == 'empty_cellref_operand' and none_operand_in(conv.text):
-            line = [l for l in conv.text.splitlines() if ' None' in l][0]
-            res.violation('impl-violation',
-                          f'written volume has a None operand: {line}',
-                          {'input': {'deck': text}, 'observed': line},
-                          cls=cls, found_input=True)
-        if cls == 'helper_plane_dedup_merge' and helper_merge_failure(conv,
-                                                                      cap):
-            res.violation('impl-violation',
-                          f'writer fails with KeyError {conv.msg} (helper '
-                          'plane merged by the de-duplication); partial file',
-                          {'input': {'deck': text}, 'observed': repr(conv)},
-                          cls=cls, found_input=True)
+def cell(cid, expr, imp=1, u=0, fill=None):
+    return {'id': cid, 'mat': 0, 'rho': None, 'expr': expr, 'imp': {'n': imp},
+            'u': u, 'lat': None, 'fill': fill, 'trcl': None, 'like': None}
+
+
+def surf(sid, mn, *params):
+    return {'id': sid, 'mn': mn, 'params': [float(p) for p in params],
+            'tr': None, 'bc': ''}
+
+
+S = deckmod.S
+
+# minimised past failures, as abstract decks (run first, through the whole
+# deck check: tie on captured data + point sweep)
+CORPUS = [
+    # empty filler cell kept by reference (was: INTE 1 None)
+    {'title': 'empty filler cell used twice',
+     'cells': [cell(1, S(-1), fill={'u': 1, 'tr': None}),
+               cell(2, ('*', S(1), S(-2)), fill={'u': 1, 'tr': None}),
+               cell(3, S(2), imp=0),
+               cell(10, S(-5), u=1), cell(11, S(5), u=1),
+               cell(12, ('*', S(-6), S(6)), u=1)],
+     'surfaces': [surf(1, 'so', 2), surf(2, 'so', 4), surf(5, 'px', 0),
+                  surf(6, 'py', 0)],
+     'transforms': {}, 'materials': {}, 'data': []},
+    # user plane equal to a helper plane + patently empty union member after
+    # de-duplication (was: KeyError in the writer)
+    {'title': 'helper plane merged, patently empty union member',
+     'cells': [cell(1, (':', ('*', S(2), S(-3)), S(-1))),
+               cell(2, ('#c', 1))],
+     'surfaces': [surf(1, 'px', 1), surf(2, 'py', 0), surf(3, 'py', 0)],
+     'transforms': {}, 'materials': {}, 'data': []},
+    # the same with the other helper plane and no user plane on x = +-1
+    {'title': 'patently empty union member after de-duplication',
+     'cells': [cell(1, (':', ('*', S(2), S(-3)), S(-1))),
+               cell(2, ('#c', 1))],
+     'surfaces': [surf(1, 'px', 0.5), surf(2, 'py', 0), surf(3, 'py', 0)],
+     'transforms': {}, 'materials': {}, 'data': []},
+    {'title': 'patently empty union member, user plane x = -1',
+     'cells': [cell(1, (':', ('*', S(2), S(-3)), S(1))),
+               cell(2, ('#c', 1))],
+     'surfaces': [surf(1, 'px', -1), surf(2, 'py', 0), surf(3, 'py', 0)],
+     'transforms': {}, 'materials': {}, 'data': []},
+]
+
+
+def run_witnesses(res, rng=None):
+    '''Corpus first: each deck through the whole deck check.'''
+    rng = rng or random.Random(1)
+    coq_cases, metas = [], []
+    for deck in CORPUS:
+        res.count('corpus:deck')
+        check_deck(res, deck, deckmod.render(deck), rng, coq_cases, metas)
+    bad, errs = common.run_case_files('c01_corpus', HEADER, 'case',
+                                      'check_case', coq_cases, chunk=40)
+    res.obligation(f'tie:corpus ({len(coq_cases)} minimised decks)',
+                   not bad and not errs, f'{len(bad)} disagreements {errs[:1]}')
+    for idx in bad:
+        text, case, obs = metas[idx]
+        res.violation('correspondence',
+                      'model and implementation disagree on a corpus deck',
+                      {'input': {'deck': text}, 'observed': repr(obs)[:2000],
+                       'theorem_or_correspondence': 'tie:corpus'},
+                      found_input=False)
 
 
 # --------------------------------------------------------------------------
